@@ -723,6 +723,15 @@ func (c *Ctx) ifOp(st *State, f *Frame, x *ssa.If) {
 		return
 	}
 	nc := c.tb.Not(cond)
+	// already decided by an identical conjunct of the path condition
+	if st.pcSet[cond.ID] {
+		c.jump(st, f, f.block.Succs[0], false)
+		return
+	}
+	if st.pcSet[nc.ID] {
+		c.jump(st, f, f.block.Succs[1], false)
+		return
+	}
 	ft, mt, ut := c.feasible(st, cond)
 	ff, mf, uf := c.feasible(st, nc)
 	switch {
@@ -806,6 +815,16 @@ func (c *Ctx) binop(st *State, op token.Token, xv, yv Value, xt, yt types.Type) 
 		case token.QUO, token.REM:
 			if !c.forkPanic(st, tb.Ne(y, tb.Const(y.W, 0)), "integer divide by zero") {
 				return nil
+			}
+			if !x.IsConst() || !y.IsConst() {
+				if k := c.narrowWidth(st, x, y); k > 0 {
+					// both operands provably in [0, 2^k): divide in k bits (same value, much smaller circuit)
+					xo, yo := tb.Extract(x, k-1, 0), tb.Extract(y, k-1, 0)
+					if op == token.QUO {
+						return tb.Zext(tb.Bin(OUDiv, xo, yo), x.W)
+					}
+					return tb.Zext(tb.Bin(OURem, xo, yo), x.W)
+				}
 			}
 			if signed {
 				if op == token.QUO {
@@ -1284,6 +1303,31 @@ func (c *Ctx) makeSlice(st *State, f *Frame, x *ssa.MakeSlice) {
 	id := c.newObj(st, arr)
 	c.set(f, x, &SliceV{Arr: Ptr{Obj: id}, Off: tb.Const(64, 0), Len: ln, Cap: cp})
 	f.ip++
+}
+
+// narrowWidth returns the smallest k in {16,24,32,40,48} such that the path condition implies 0 <= x,y < 2^k
+// (unsigned view), or 0. Used to shrink division circuits.
+func (c *Ctx) narrowWidth(st *State, x, y *Term) int {
+	if x.W != 64 || st.pcUnsure {
+		return 0
+	}
+	for _, k := range []int{16, 24, 32, 40, 48} {
+		lim := c.tb.Const(64, uint64(1)<<uint(k))
+		ok := c.tb.And(c.tb.Ult(x, lim), c.tb.Ult(y, lim))
+		bad := c.tb.Not(ok)
+		if bad.IsFalse() {
+			return k
+		}
+		if st.model != nil && c.tb.Eval(bad, st.model, map[int]uint64{}) == 1 {
+			continue
+		}
+		sl := c.slice(st, bad)
+		r, _ := c.solve(append(append([]*Term{}, sl...), bad), 2000)
+		if r == Unsat {
+			return k
+		}
+	}
+	return 0
 }
 
 // fewValues enumerates the feasible values of t if there are at most max of them; nil otherwise.
